@@ -1,6 +1,6 @@
 //! C06 — fee splits. Function-level correspondence: the real `sg1` functions vs `LP.Sg1` (Lean).
 use cosmwasm_std::testing::mock_env;
-use cosmwasm_std::{MessageInfo, Response};
+use cosmwasm_std::{Addr, CosmosMsg, MessageInfo, Response};
 use lp_harness::minters::{MinterKind, World as MWorld, GENESIS};
 use lp_harness::world::*;
 use lp_harness::*;
@@ -142,6 +142,67 @@ fn shuffle_fee_integration(k: usize, fee: u128, pay: u128) -> (u64, String) {
     (addr_id(&m), out)
 }
 
+/// Round 5 — the protobuf bytes of `MsgFundFairburnPool`. An independent few-line decoder (NOT anybuf, NOT the Lean model):
+/// base-128 varints, length-delimited fields only.
+const FUND_POOL_URL: &str = "/publicawesome.stargaze.alloc.v1beta1.MsgFundFairburnPool";
+fn pb_varint(b: &[u8], i: &mut usize) -> Option<u64> {
+    let (mut v, mut sh) = (0u64, 0u32);
+    loop {
+        let x = *b.get(*i)?;
+        *i += 1;
+        v |= ((x & 0x7f) as u64) << sh;
+        if x & 0x80 == 0 {
+            return Some(v);
+        }
+        sh += 7;
+        if sh > 63 {
+            return None;
+        }
+    }
+}
+fn pb_fields(b: &[u8]) -> Option<Vec<(u64, Vec<u8>)>> {
+    let (mut i, mut out) = (0usize, vec![]);
+    while i < b.len() {
+        let k = pb_varint(b, &mut i)?;
+        if k & 7 != 2 || (k >> 3 != 1 && k >> 3 != 2) {
+            return None;
+        }
+        let l = pb_varint(b, &mut i)? as usize;
+        if l > b.len() - i {
+            return None;
+        }
+        out.push((k >> 3, b[i..i + l].to_vec()));
+        i += l;
+    }
+    Some(out)
+}
+fn pb_last(fs: &[(u64, Vec<u8>)], n: u64) -> Vec<u8> {
+    fs.iter().rev().find(|f| f.0 == n).map(|f| f.1.clone()).unwrap_or_default()
+}
+/// (sender, [(denom, amount)])
+fn pb_decode(b: &[u8]) -> Option<(Vec<u8>, Vec<(Vec<u8>, Vec<u8>)>)> {
+    let fs = pb_fields(b)?;
+    let mut coins = vec![];
+    for f in fs.iter().filter(|f| f.0 == 2) {
+        let c = pb_fields(&f.1)?;
+        coins.push((pb_last(&c, 1), pb_last(&c, 2)));
+    }
+    Some((pb_last(&fs, 1), coins))
+}
+fn hx(b: &[u8]) -> String {
+    if b.is_empty() { "-".into() } else { hex::encode(b) }
+}
+fn unhx(s: &str) -> Vec<u8> {
+    if s == "-" { vec![] } else { hex::decode(s).expect("hex") }
+}
+fn pb_render_decoded(b: &[u8]) -> String {
+    match pb_decode(b) {
+        None => "undecodable".into(),
+        Some((s, cs)) if cs.is_empty() => format!("{}:none", hx(&s)),
+        Some((s, cs)) => cs.iter().map(|c| format!("{}:{}:{}", hx(&s), hx(&c.0), hx(&c.1))).collect::<Vec<_>>().join(","),
+    }
+}
+
 struct S {
     last: Option<(String, String)>, // (line, output) for the monitor
 }
@@ -202,6 +263,34 @@ impl Sut for S {
                         Ok(()) => format!("ok {}", render_msgs(&res.messages)),
                         Err(_) => "err".into(),
                     }
+                }
+                "pb" => {
+                    // the REAL code path that builds the Stargate message: `fair_burn(sender, fee, None)` directly (via=fb) or through
+                    // `checked_fair_burn` with `env.contract.address = sender` and an exact payment (via=checked)
+                    let sender = String::from_utf8(unhx(kv(line, "sender").unwrap())).expect("utf8 sender");
+                    let fee = kv_u128(line, "fee").unwrap();
+                    if kv(line, "via").unwrap() == "fb" {
+                        sg1::fair_burn(sender, fee, None, &mut res);
+                    } else {
+                        let mut env = mock_env();
+                        env.contract.address = Addr::unchecked(sender);
+                        let funds: Vec<(u128, u128)> = if fee > 0 { vec![(0, fee)] } else { vec![] };
+                        if sg1::checked_fair_burn(&info(&funds), &env, fee, None, &mut res).is_err() {
+                            return "err".into();
+                        }
+                    }
+                    match res.messages.iter().find_map(|m| if let CosmosMsg::Stargate { type_url, value } = &m.msg { Some((type_url.clone(), value.to_vec())) } else { None }) {
+                        Some((url, v)) => format!("ok url={url} hex={} dec={}", hx(&v), pb_render_decoded(&v)),
+                        None => "ok none".into(),
+                    }
+                }
+                "pbenc" => {
+                    // encoder level (NOT a contract path: `fair_burn` fixes the denom to ustars and the amount to a decimal number):
+                    // the same `anybuf` calls, in the same order, as `sg1::encode_msg_fund_fairburn_pool`, on arbitrary strings
+                    let st = |k: &str| String::from_utf8(unhx(kv(line, k).unwrap())).expect("utf8");
+                    let coin = anybuf::Anybuf::new().append_string(1, st("denom")).append_string(2, st("amount"));
+                    let v = anybuf::Anybuf::new().append_string(1, st("sender")).append_message(2, &coin).into_vec();
+                    format!("ok hex={} dec={}", hx(&v), pb_render_decoded(&v))
                 }
                 "dao" => {
                     let d = denom(kv_u64(line, "denom").unwrap());
@@ -308,6 +397,29 @@ impl Sut for S {
                 }
                 if kv_u128(&line, "pay").unwrap() < f {
                     return Some((format!("{name}/shuffle/insufficient-accepted"), format!("shuffle accepted payment below the fee on `{line}`")));
+                }
+                None
+            }
+            "pb" if out.starts_with("ok") => {
+                // "the remainder goes to the fair-burn pool ON BEHALF OF THE CALLING CONTRACT": decode the REAL bytes with the
+                // independent decoder above; sender = the address the harness passed, one coin = F - floor(F/2) ustars
+                let key = |p: &str, w: String| Some((format!("sg1/fund_pool/{p}"), format!("{w} on `{line}` => `{out}`")));
+                let want_sender = unhx(kv(&line, "sender").unwrap());
+                if out == "ok none" {
+                    // only `checked_fair_burn` with a zero payment emits nothing
+                    return if kv(&line, "via") == Some("checked") && fee == 0 { None } else { key("missing", "no Stargate message for the pool".into()) };
+                }
+                let p = primary_part(&out);
+                if kv(p, "url") != Some(FUND_POOL_URL) {
+                    return key("type-url", format!("type_url is not {FUND_POOL_URL}"));
+                }
+                let Some((s, cs)) = pb_decode(&unhx(kv(p, "hex").unwrap_or("-"))) else { return key("undecodable", "the bytes are not a MsgFundFairburnPool".into()) };
+                if s != want_sender {
+                    return key("sender-not-caller", format!("sender in the bytes is {:?}, the caller is {:?}", String::from_utf8_lossy(&s), String::from_utf8_lossy(&want_sender)));
+                }
+                let rest = fee - fee / 2;
+                if cs != vec![(b"ustars".to_vec(), rest.to_string().into_bytes())] {
+                    return key("amount-not-remainder", format!("coins in the bytes are {:?}, expected exactly {rest}ustars", cs.iter().map(|c| format!("{}{}", String::from_utf8_lossy(&c.1), String::from_utf8_lossy(&c.0))).collect::<Vec<_>>()));
                 }
                 None
             }
@@ -445,6 +557,11 @@ fn main() {
         if f % 97 == 0 {
             ses.step(&mut sut, &format!("ibc denom=2 fee={f} dev={}", dev_s(&devs[(f % 2) as usize])));
         }
+        ses.mark("kind:fair_burn");
+        ses.mark("kind:dist");
+        if f % 97 == 0 {
+            ses.mark("kind:ibc");
+        }
         ses.mark(format!("dense:{}", f % 40)); // residues mod lcm-ish of the divisors 2,5,8
     }
     ses.end_case();
@@ -479,6 +596,7 @@ fn main() {
             };
             let out = ses.step(&mut sut, &format!("mintfee kind={k} price={price} bps={b}"));
             let f = price * b as u128 / 10_000;
+            ses.mark("kind:mintfee");
             ses.mark(format!("caller:{name}:{}:fee-{}", &out[..2], if f == 0 { "zero" } else if f % 2 == 1 { "odd" } else { "even" }));
         }
         ses.require(format!("caller:{name}:ok:fee-odd"));
@@ -500,6 +618,7 @@ fn main() {
                 for fee in [5_000_000_000u128, 5_000_000_001, 3] {
                     for pay in [fee, fee - 1] {
                         let out = ses.step(&mut sut, &format!("createfee fk={fk} fd={fd} md={md} fee={fee} pay={pay}"));
+                        ses.mark("kind:createfee");
                         ses.mark(format!("createfee:{name}:fd{fd}:md{md}:{}:{}", if pay == fee { "exact" } else { "short" }, &out[..2]));
                     }
                 }
@@ -513,6 +632,7 @@ fn main() {
         for (ml, nml) in [(10u32, 900u32), (1000, 1001), (1000, 3000), (999, 5000), (1500, 1800), (2001, 4000)] {
             let out = ses.step(&mut sut, &format!("wlfee kind={k} ml={ml} nml={nml}"));
             let crossed = (nml + 999) / 1000 - (ml + 999) / 1000;
+            ses.mark("kind:wlfee");
             ses.mark(format!("wlfee:{name}:crossed{}:{}", crossed.min(2), &out[..2]));
         }
         for c in 0..3 {
@@ -525,12 +645,129 @@ fn main() {
             for pay in [fee, fee + 1, fee - 1] {
                 let out = ses.step(&mut sut, &format!("shufflefee kind={k} fee={fee} pay={pay}"));
                 // an overpayment is accepted (`payment < fee` is the only rejection); the surplus stays with the minter (behind ` ## `)
+                ses.mark("kind:shufflefee");
                 ses.mark(format!("shuffle:{name}:{}:{}", &out[..2], if pay == fee { "exact" } else if pay > fee { "over" } else { "under" }));
             }
         }
         ses.require(format!("shuffle:{name}:ok:exact"));
     }
     ses.end_case();
+
+    // 2c. round 5: the protobuf bytes of MsgFundFairburnPool (real `fair_burn` / `checked_fair_burn`, no developer)
+    ses.begin_case(&mut sut, "case protobuf");
+    {
+        let mut fees: Vec<u128> = vec![0, 1, 2, 3, 127, 128, 253, 254, 255, 256, 16383, 16384, 32766, 32767, 32768, u128::MAX, u128::MAX - 1, u128::MAX / 2, u128::MAX / 2 + 1];
+        let mut t: u128 = 1;
+        for _ in 0..39 {
+            // remainders 10^k - 1, 10^k, 10^k + 1 need fees around 2 * 10^k
+            fees.extend([t.saturating_sub(1), t, t.saturating_add(1), t.saturating_mul(2).saturating_sub(3), t.saturating_mul(2).saturating_sub(1), t.saturating_mul(2), t.saturating_mul(2).saturating_add(1)]);
+            t = t.saturating_mul(10);
+        }
+        for _ in 0..ses.scale(300, 20_000) {
+            fees.push(rng.sized_u128(128));
+        }
+        // sender strings: the harness' contract addresses, bech32-like, empty, 1 byte, 127 / 128 / 129 bytes (one- and two-byte length
+        // varint), 300, 16383 / 16384 bytes (two- and three-byte), multi-byte UTF-8
+        let rand_sender = |rng: &mut Rng| -> String {
+            let n = match rng.below(10) {
+                0 => 0,
+                1 => 1,
+                2 => 126 + rng.below(5) as usize,
+                3 => 200 + rng.below(200) as usize,
+                4 => 16382 + rng.below(4) as usize,
+                _ => 3 + rng.below(70) as usize,
+            };
+            let mut s = String::new();
+            while s.len() < n {
+                let c = if rng.chance(1, 12) { *rng.pick(&['é', '€', '𝄞', ' ', ':', '/']) } else { (b'a' + rng.below(26) as u8) as char };
+                if s.len() + c.len_utf8() <= n {
+                    s.push(c);
+                }
+            }
+            s
+        };
+        let fixed: Vec<String> = vec![
+            addr(1007),
+            addr(20),
+            "stars1huqk6ha02jgrm69lxh8xfgl6wch9wlg7s65ujxydwdr725cxvuus423tj0".into(),
+            String::new(),
+            "x".repeat(127),
+            "x".repeat(128),
+            "y".repeat(16383),
+            "y".repeat(16384),
+        ];
+        for (i, f) in fees.iter().enumerate() {
+            let sender = if i < 2 * fixed.len() { fixed[i % fixed.len()].clone() } else { rand_sender(&mut rng) };
+            let via = if i % 2 == 0 || rng.chance(1, 3) { "fb" } else { "checked" };
+            let out = ses.step(&mut sut, &format!("pb via={via} sender={} fee={f}", hx(sender.as_bytes())));
+            let lc = match sender.len() { 0 => "empty", 1..=127 => "len1", 128..=16383 => "len2", _ => "len3" };
+            ses.mark(format!("pb:{via}:sender-{lc}:{}", if out == "ok none" { "none" } else { &out[..2] }));
+            ses.mark(format!("pb:digits:{}", (f - f / 2).to_string().len()));
+            if *f == u128::MAX {
+                ses.mark(format!("pb:{via}:fee-u128max:{}", &out[..2]));
+            }
+        }
+        // both entries at u128::MAX and with a two-byte sender length, deterministically
+        for via in ["fb", "checked"] {
+            let out = ses.step(&mut sut, &format!("pb via={via} sender={} fee={}", hx("z".repeat(130).as_bytes()), u128::MAX));
+            ses.mark(format!("pb:{via}:fee-u128max:{}", &out[..2]));
+            ses.mark(format!("pb:{via}:sender-len2:{}", &out[..2]));
+            let out = ses.step(&mut sut, &format!("pb via={via} sender=- fee=1000000007"));
+            ses.mark(format!("pb:{via}:sender-empty:{}", &out[..2]));
+            let out = ses.step(&mut sut, &format!("pb via={via} sender={} fee=9", hx("w".repeat(16390).as_bytes())));
+            ses.mark(format!("pb:{via}:sender-len3:{}", &out[..2]));
+        }
+        ses.step(&mut sut, "pb via=checked sender=61626364 fee=0");
+        ses.mark("pb:checked:zero-fee-none");
+        // encoder level: long IBC-style denoms (> 127 bytes: two-byte length varint also for the nested message), empty strings,
+        // amount strings up to u128::MAX
+        let ibc = |n: usize| -> String { format!("ibc/{}", "27394FB092D2ECCD56123C74F36E4C1F926001CEADA9CA97EA622B25F41E5EB2".repeat(n)) };
+        let denoms: Vec<String> = vec!["ustars".into(), String::new(), ibc(1), ibc(2), ibc(3), format!("factory/{}/{}", "stars1huqk6ha02jgrm69lxh8xfgl6wch9wlg7s65ujxydwdr725cxvuus423tj0", "u".repeat(60)), "d".repeat(127), "d".repeat(128), "d".repeat(20000)];
+        let mut amounts: Vec<String> = vec![String::new(), "0".into(), "1".into(), "127".into(), "128".into(), "16383".into(), "16384".into(), u128::MAX.to_string()];
+        let mut t: u128 = 10;
+        for _ in 0..38 {
+            amounts.extend([(t - 1).to_string(), t.to_string(), (t + 1).to_string()]);
+            t = t.saturating_mul(10);
+        }
+        for (i, am) in amounts.iter().enumerate() {
+            for (j, d) in denoms.iter().enumerate() {
+                let sender = match (i + j) % 4 { 0 => String::new(), 1 => addr(1000 + j as u64), 2 => "s".repeat(128 + i), _ => rand_sender(&mut rng) };
+                let out = ses.step(&mut sut, &format!("pbenc sender={} denom={} amount={}", hx(sender.as_bytes()), hx(d.as_bytes()), hx(am.as_bytes())));
+                let dl = match d.len() { 0 => "empty", 1..=127 => "len1", 128..=16383 => "len2", _ => "len3" };
+                ses.mark(format!("pbenc:denom-{dl}:amount-{}:sender-{}", if am.is_empty() { "empty" } else { "digits" }, if sender.is_empty() { "empty" } else { "some" }));
+                if *am == u128::MAX.to_string() {
+                    ses.mark(format!("pbenc:amount-u128max:denom-{dl}"));
+                }
+                if d.is_empty() && am.is_empty() {
+                    // the all-default coin: anybuf omits the nested message altogether
+                    ses.mark(format!("pbenc:empty-coin-dropped:{}", out.contains(":none")));
+                }
+            }
+        }
+        for _ in 0..ses.scale(200, 10_000) {
+            let d = if rng.chance(1, 2) { ibc(1 + rng.below(3) as usize) } else { rand_sender(&mut rng) };
+            let am = if rng.chance(1, 20) { String::new() } else { rng.sized_u128(128).to_string() };
+            ses.step(&mut sut, &format!("pbenc sender={} denom={} amount={}", hx(rand_sender(&mut rng).as_bytes()), hx(d.as_bytes()), hx(am.as_bytes())));
+        }
+        ses.mark("kind:pb");
+        ses.mark("kind:pbenc");
+    }
+    ses.end_case();
+    for via in ["fb", "checked"] {
+        ses.require(format!("pb:{via}:sender-len2:ok")); // two-byte length varint reached on the real path
+        ses.require(format!("pb:{via}:fee-u128max:ok"));
+        ses.require(format!("pb:{via}:sender-empty:ok"));
+        ses.require(format!("pb:{via}:sender-len3:ok"));
+    }
+    ses.require("pb:digits:39"); // remainder 2^127 (fee u128::MAX): 39 decimal digits
+    ses.require("pb:digits:1");
+    ses.require("pb:checked:zero-fee-none");
+    ses.require("pbenc:denom-len2:amount-digits:sender-some"); // IBC-style denom > 127 bytes
+    ses.require("pbenc:amount-u128max:denom-len2");
+    ses.require("pbenc:empty-coin-dropped:true");
+    for k in ["fair_burn", "dist", "ibc", "mintfee", "createfee", "wlfee", "shufflefee", "checked", "dao", "pb", "pbenc"] {
+        ses.require(format!("kind:{k}"));
+    }
 
     // 3. payments: checked_fair_burn / transfer_funds_to_launchpad_dao
     ses.begin_case(&mut sut, "case payments");
@@ -564,6 +801,8 @@ fn main() {
             _ => vec![(dn, pay)],
         };
         ses.step(&mut sut, &format!("dao funds={} fee={fee} denom={dn}", fmt_pairs(&funds2)));
+        ses.mark("kind:checked");
+        ses.mark("kind:dao");
         ses.mark(format!("pay:rel{rel}:shape{shape}:{}", d.is_some()));
     }
     ses.end_case();
